@@ -74,6 +74,7 @@ fn tname(t: u16) -> String {
         6 => "SOA".into(),
         15 => "MX".into(),
         16 => "TXT".into(),
+        28 => "AAAA".into(),
         43 => "DS".into(),
         46 => "RRSIG".into(),
         47 => "NSEC".into(),
@@ -445,7 +446,7 @@ fn windows(now: u32) -> [(u32, u32); 3] {
     ]
 }
 
-fn build_zone(apex: &str, content: Vec<LRec>, skey: Option<(Arc<SKey>, Vec<u8>)>, denial: Denial, now: u32) -> Zone {
+fn build_zone(apex: &str, content: Vec<LRec>, skey: Option<(Arc<SKey>, Vec<u8>)>, denial: Denial, now: u32, decoys: &[Vec<u8>]) -> Zone {
     let apexl = nm(apex);
     let mut z = Zone {
         apex: apexl.clone(),
@@ -508,10 +509,15 @@ fn build_zone(apex: &str, content: Vec<LRec>, skey: Option<(Arc<SKey>, Vec<u8>)>
                     }
                 }
                 // DNSKEY RRset and its signature
-                let sig = sign_set(sk, &apexl, T_DNSKEY, 3600, &[dnskey_rd.clone()], *inc, *exp);
+                // (other keys of the zone, which do not sign, are listed BEFORE the signing key)
+                let mut keyset: Vec<Vec<u8>> = decoys.to_vec();
+                keyset.push(dnskey_rd.clone());
+                let sig = sign_set(sk, &apexl, T_DNSKEY, 3600, &keyset, *inc, *exp);
                 z.sigs.entry((key(&apexl), T_DNSKEY)).or_insert_with(Default::default)[w].push(sig);
             }
-            z.sets.insert((key(&apexl), T_DNSKEY), (3600, vec![dnskey_rd.clone()]));
+            let mut keyset: Vec<Vec<u8>> = decoys.to_vec();
+            keyset.push(dnskey_rd.clone());
+            z.sets.insert((key(&apexl), T_DNSKEY), (3600, keyset));
         }
     }
     // namespace
@@ -560,9 +566,32 @@ struct Hier {
     now: u32,
     /// attacker's key for zone.tld with the same key tag and algorithm as the real one
     forged: Option<(Arc<SKey>, Vec<u8>)>,
+    /// zone.tld's DNSKEY RRset lists a second, non-signing key with the same algorithm and key tag first
+    decoy: bool,
 }
 
-fn build_hier(name: &'static str, kind: Kind, nsec3: bool, opt_out: bool, now: u32) -> Hier {
+#[derive(Clone, Copy)]
+struct Spec {
+    name: &'static str,
+    kind: Kind,
+    nsec3: bool,
+    opt_out: bool,
+    /// colliding-tag key in zone.tld's DNSKEY RRset, listed before the signing key
+    decoy: bool,
+    /// additional secure zones evil.tld. (sibling), a.b.tld. and x.b.tld. (below the empty non-terminal b.tld.)
+    extra: bool,
+}
+
+/// A fresh ECDSAP256SHA256 key for `apex`.
+fn gen_key(apex: &str) -> (Arc<SKey>, Vec<u8>) {
+    let (sec, pk) = generate(&GenerateParams::EcdsaP256Sha256, 257).expect("generate");
+    let kp = KeyPair::from_bytes(&sec, &pk).expect("key pair");
+    let rd = rdata_of(&pk);
+    (Arc::new(SigningKey::new(lname(&nm(apex)), 257, kp)), rd)
+}
+
+fn build_hier(spec: Spec, now: u32) -> Hier {
+    let Spec { name, kind, nsec3, opt_out, decoy, extra } = spec;
     let (k_root, rd_root, ta) = load_key("008+60616", &nm("."));
     let (k_tld, rd_tld, _) = load_key("010+46731", &nm("tld."));
     let (k_zone, rd_zone, _) = load_key("013+42253", &nm("zone.tld."));
@@ -607,14 +636,9 @@ fn build_hier(name: &'static str, kind: Kind, nsec3: bool, opt_out: bool, now: u
         r_a("explicit.w.zone.tld.", 78),
         r_cname("cn.zone.tld.", "www.zone.tld."),
         r_cname("ext.zone.tld.", "www.tld."),
+        r_cname("*.wc.zone.tld.", "www.zone.tld."),
         r_mx("mail.zone.tld.", "www.zone.tld."),
     ];
-    let zroot = build_zone(".", root, Some((k_root, rd_root)), den(&[], 0, false), now);
-    let ztld = build_zone("tld.", tld, Some((k_tld, rd_tld)), den(&[0xAA, 0xBB], 1, opt_out), now);
-    let zzone = match kind {
-        Kind::Secure => build_zone("zone.tld.", zone, Some((k_zone, rd_zone.clone())), den(&[0x01], 2, false), now),
-        Kind::InsecureChild => build_zone("zone.tld.", zone, None, Denial::None, now),
-    };
     // attacker key with colliding key tag (same algorithm): the flags field
     // is chosen such that the tag matches; the ZONE bit must stay set.
     let mut forged = None;
@@ -652,15 +676,37 @@ fn build_hier(name: &'static str, kind: Kind, nsec3: bool, opt_out: bool, now: u
         }
         assert!(forged.is_some(), "MACHINERY: could not construct a tag-colliding key");
     }
+    let mut extra_zones = vec![];
+    if extra {
+        for (apex, d) in [("evil.tld.", 20u8), ("a.b.tld.", 21), ("x.b.tld.", 22)] {
+            let (k, rd) = gen_key(apex);
+            tld.push(r_ns(apex, &format!("ns.{apex}")));
+            tld.push(r_raw(apex, T_DS, ds_rdata(&nm(apex), &rd)));
+            let content = vec![r_soa(apex), r_ns(apex, &format!("ns.{apex}")), r_a(&format!("ns.{apex}"), d), r_a(&format!("www.{apex}"), d + 10)];
+            extra_zones.push(build_zone(apex, content, Some((k, rd)), Denial::Nsec, now, &[]));
+        }
+    }
+    let decoys: Vec<Vec<u8>> = if decoy { vec![forged.as_ref().expect("decoy needs the colliding key").1.clone()] } else { vec![] };
+    let zroot = build_zone(".", root, Some((k_root, rd_root)), den(&[], 0, false), now, &[]);
+    let ztld = build_zone("tld.", tld, Some((k_tld, rd_tld)), den(&[0xAA, 0xBB], 1, opt_out), now, &[]);
+    let zzone = match kind {
+        Kind::Secure => build_zone("zone.tld.", zone, Some((k_zone, rd_zone.clone())), den(&[0x01], 2, false), now, &decoys),
+        Kind::InsecureChild => build_zone("zone.tld.", zone, None, Denial::None, now, &[]),
+    };
     let h = Hier {
         name,
         kind,
         nsec3,
         opt_out,
-        zones: vec![zroot, ztld, zzone],
+        zones: {
+            let mut v = vec![zroot, ztld, zzone];
+            v.extend(extra_zones);
+            v
+        },
         ta_text: format!(". 3600 IN DNSKEY {ta}"),
         now,
         forged,
+        decoy,
     };
     h.sanity();
     h
@@ -685,6 +731,8 @@ impl Truth {
     }
     fn short(&self) -> &'static str {
         match self {
+            Truth::Pos { wildcard: false, src, .. } if src.last().map(|l| l.as_slice()) == Some(b"*") => "positive-at-wildcard-owner",
+            Truth::Cname { wildcard: false, src, .. } if src.last().map(|l| l.as_slice()) == Some(b"*") => "cname-at-wildcard-owner",
             Truth::Pos { wildcard: false, .. } => "positive",
             Truth::Pos { .. } => "positive-wildcard",
             Truth::Cname { .. } => "cname",
@@ -786,7 +834,7 @@ impl Hier {
             let lib = z.key.as_ref().expect("key").dnskey();
             assert_eq!(rdata_of(&lib), z.dnskey, "MACHINERY: DNSKEY RDATA");
             assert_eq!(lib.key_tag(), key_tag(&z.dnskey), "MACHINERY: key tag computation disagrees with the library");
-            assert_eq!(z.sets.get(&(key(&z.apex), T_DNSKEY)).map(|s| s.1.clone()), Some(vec![z.dnskey.clone()]), "MACHINERY: DNSKEY set");
+            assert_eq!(z.sets.get(&(key(&z.apex), T_DNSKEY)).and_then(|s| s.1.last().cloned()), Some(z.dnskey.clone()), "MACHINERY: DNSKEY set");
             for (h, o) in &z.n3 {
                 assert_eq!(b32hex(h), o.last().unwrap().to_ascii_lowercase(), "MACHINERY: base32hex");
             }
@@ -1073,6 +1121,9 @@ enum Op {
     Forge,
     /// answer RRset forged and signed with the real key of a zone that is not an ancestor of the owner
     OutOfBailiwick,
+    /// the CNAME answer is dropped and replaced by a NODATA response made of the genuine signed SOA and
+    /// the CNAME owner's own genuine NSEC / NSEC3 (whose bitmap lists CNAME)
+    CnameToNodata,
     /// DS RRset at the cut forged and signed by the CHILD zone's real key (signer = owner; RFC 4035 5.3.1
     /// wants the parent).  The forged set is covered by a chain to the trust anchor, so the property text
     /// does not decide: information only.
@@ -1107,6 +1158,7 @@ impl Op {
             Op::Forge => "forged-key-same-tag".into(),
             Op::OutOfBailiwick => "signer-not-ancestor".into(),
             Op::DsSignedByChild => "ds-signed-by-child".into(),
+            Op::CnameToNodata => "cname-answer-replaced-by-nodata-with-own-nsec".into(),
         }
     }
     /// Faults that need the zone's real private key (hostile zone owner):
@@ -1377,6 +1429,66 @@ fn run_across_expiry(h: &Arc<Hier>) -> Option<(Verdict, Verdict, u32)> {
     Some((first, second, exp))
 }
 
+/// Validate `bytes` with `vc`; verdict and the message after validation.
+fn validate_bytes(vc: &ValidationContext<Upstream>, bytes: &[u8]) -> (Verdict, Vec<u8>) {
+    let mut msg = Message::from_octets(bytes.to_vec()).expect("message");
+    let v = match guard(|| block_on(async { vc.validate_msg::<Vec<u8>, Vec<u8>>(&mut msg).await })) {
+        Ok(Ok((s, _))) => Verdict::State(state_name(s).into()),
+        Ok(Err(e)) => Verdict::Err(format!("{e}")),
+        Err(p) => Verdict::Panic(p),
+    };
+    (v, msg.as_slice().to_vec())
+}
+
+fn fresh_context(h: &Arc<Hier>) -> ValidationContext<Upstream> {
+    let up = Upstream { h: h.clone(), faults: Arc::new(vec![]), st: Arc::new(UpState::default()), main: false };
+    ValidationContext::new(TrustAnchors::from_u8(h.ta_text.as_bytes()).expect("trust anchor"), up)
+}
+
+/// Signature cache across owners (needs the hierarchy with the sibling zone evil.tld.): the secure sibling
+/// zone evil.tld. signs `*.tld. A 6.6.6.6` (RRSIG labels 1, signer evil.tld.).  Presented as x.evil.tld. the
+/// signature itself verifies (the answer as a whole is not secure: no proof for the expansion); presented as
+/// www.tld. -- a name of ANOTHER zone -- together with evil.tld.'s own NSEC it must never be secure.
+/// Returns (verdict without priming, verdict of the priming message, verdict after priming in the same context).
+fn run_sig_cache_sibling(h: &Arc<Hier>) -> Option<(Verdict, Verdict, Verdict)> {
+    let zi = h.zones.iter().position(|z| z.apex == nm("evil.tld."))?;
+    let k = h.zones[zi].key.clone()?;
+    let (inc, exp) = windows(h.now)[0];
+    let forged = vec![6u8, 6, 6, 6];
+    let sig = sign_set(&k, &nm("*.tld."), T_A, 3600, &[forged.clone()], inc, exp);
+    let mut nsec_rd = wire(&nm("zzzz.tld."));
+    nsec_rd.extend_from_slice(&[0, 7, 0x22, 0, 0, 0, 0, 0x03, 0x80]); // NS SOA RRSIG NSEC DNSKEY
+    let nsec_sig = sign_set(&k, &nm("evil.tld."), T_NSEC, 3600, &[nsec_rd.clone()], inc, exp);
+    let src = (zi, key(&nm("*.tld.")), T_A);
+    let msg_for = |owner: &str, with_nsec: bool| {
+        let o = nm(owner);
+        let mut r = Resp::new(&o, T_A);
+        r.push(0, Rr { owner: o.clone(), rtype: T_A, class: 1, ttl: 3600, rdata: forged.clone() }, src.clone());
+        r.push(0, Rr { owner: o.clone(), rtype: T_RRSIG, class: 1, ttl: 3600, rdata: sig.clone() }, src.clone());
+        if with_nsec {
+            let e = nm("evil.tld.");
+            r.push(1, Rr { owner: e.clone(), rtype: T_NSEC, class: 1, ttl: 3600, rdata: nsec_rd.clone() }, src.clone());
+            r.push(1, Rr { owner: e, rtype: T_RRSIG, class: 1, ttl: 3600, rdata: nsec_sig.clone() }, src.clone());
+        }
+        r.encode()
+    };
+    let attack = msg_for("www.tld.", true);
+    let unprimed = validate_bytes(&fresh_context(h), &attack).0;
+    let vc = fresh_context(h);
+    let priming = validate_bytes(&vc, &msg_for("x.evil.tld.", false)).0;
+    let primed = validate_bytes(&vc, &attack).0;
+    Some((unprimed, priming, primed))
+}
+
+/// Two secure delegations a.b.tld. and x.b.tld. below the empty non-terminal b.tld.: one context validates
+/// the authentic answers for www.x.b.tld. A and then www.a.b.tld. A.
+fn run_shared_ent(h: &Arc<Hier>) -> (Verdict, Verdict) {
+    let vc = fresh_context(h);
+    let first = validate_bytes(&vc, &h.answer(&nm("www.x.b.tld."), T_A).encode()).0;
+    let second = validate_bytes(&vc, &h.answer(&nm("www.a.b.tld."), T_A).encode()).0;
+    (first, second)
+}
+
 // ------------------------------------------------------------ oracle
 
 struct Parsed {
@@ -1474,7 +1586,9 @@ impl Hier {
                 if t == T_NS && ownerk != &key(&z.apex) {
                     continue; // delegation NS is not authoritative data
                 }
-                if *have == got {
+                let mut have = have.clone();
+                have.sort();
+                if have == got {
                     return true;
                 }
             }
@@ -2249,6 +2363,29 @@ fn apply_op(h: &Hier, op: &Op, r: &mut Resp, main: bool) {
                 resign_section(h, r, 0, 2, fk);
             }
         }
+        Op::CnameToNodata => {
+            if let Truth::Cname { zone, src, wildcard: false, .. } = h.classify(&r.qname, r.qtype) {
+                let z = &h.zones[zone];
+                if z.secure {
+                    let mut d = Resp::new(&r.qname, r.qtype);
+                    d.next_id = 2000;
+                    let ao = z.apex.clone();
+                    d.push_set(h, 1, zone, &key(&ao), &ao, T_SOA);
+                    match &z.denial {
+                        Denial::Nsec => d.push_denial(h, zone, &src),
+                        Denial::Nsec3 { .. } => {
+                            if let Some(o) = z.n3_match(&unkey(&src)) {
+                                d.push_denial(h, zone, &o);
+                            }
+                        }
+                        Denial::None => {}
+                    }
+                    r.rcode = 0;
+                    r.sec = d.sec;
+                    r.next_id = d.next_id;
+                }
+            }
+        }
         Op::OutOfBailiwick | Op::DsSignedByChild => {
             let Some(k) = h.zones[2].key.clone() else { return };
             for e in r.sec[0].iter_mut() {
@@ -2648,7 +2785,8 @@ fn kinds_class(faults: &[Fault]) -> String {
 }
 
 /// All cases for one (hierarchy, query).
-fn cases_for(hiers: &[Arc<Hier>], hi: usize, q: &Query, swap_only: bool, pairs: u8, counts: &Mutex<BTreeMap<String, u64>>) -> (Vec<Case>, Vec<Fault>) {
+fn cases_for(hiers: &[Arc<Hier>], hi: usize, q: &Query, mode: u8, pairs: u8, counts: &Mutex<BTreeMap<String, u64>>) -> (Vec<Case>, Vec<Fault>) {
+    let swap_only = mode == 1;
     let h = &hiers[hi];
     let none = Arc::new(vec![]);
     let base = run_direct(h, q, &none);
@@ -2661,7 +2799,17 @@ fn cases_for(hiers: &[Arc<Hier>], hi: usize, q: &Query, swap_only: bool, pairs: 
         }
     }
     let mut singles: Vec<(Fault, bool)> = vec![];
+    if mode != 2 {
+        if let Truth::Cname { zone, wildcard: false, .. } = h.classify(&q.name, q.qtype) {
+            if h.zones[zone].secure && mode != 1 {
+                singles.push((Fault { target: Target::Main, op: Op::CnameToNodata }, true));
+            }
+        }
+    }
     for (tg, resp) in &targets {
+        if mode >= 2 {
+            break;
+        }
         let main = *tg == Target::Main;
         if swap_only && !main {
             continue;
@@ -2671,7 +2819,7 @@ fn cases_for(hiers: &[Arc<Hier>], hi: usize, q: &Query, swap_only: bool, pairs: 
         }
     }
     // specials
-    if !swap_only {
+    if mode == 0 {
         let truth = h.classify(&q.name, q.qtype);
         if let Truth::Pos { zone, .. } = truth {
             if h.kind == Kind::InsecureChild && h.zones[zone].secure {
@@ -2679,7 +2827,7 @@ fn cases_for(hiers: &[Arc<Hier>], hi: usize, q: &Query, swap_only: bool, pairs: 
                     singles.push((Fault { target: Target::Main, op: Op::InjectInsecure { s } }, s == 0));
                 }
             }
-            if h.kind == Kind::Secure && zone == 2 {
+            if h.kind == Kind::Secure && zone == 2 && !h.decoy {
                 out.push(Case {
                     hi,
                     q: q.clone(),
@@ -2716,18 +2864,84 @@ fn cases_for(hiers: &[Arc<Hier>], hi: usize, q: &Query, swap_only: bool, pairs: 
     (out, menu)
 }
 
+/// The two context-reuse cases on the hierarchy with the additional zones; reports violations, returns
+/// what was observed.
+fn reuse_specials(ctx: &Ctx, stats: &Stats, h: &Arc<Hier>, only: Option<&str>) -> Value {
+    let mut out = serde_json::Map::new();
+    if only.is_none() || only == Some("signature-cache-across-owners") {
+        let replay = json!({"scenario": h.name, "special": "signature-cache-across-owners", "qname": "www.tld.", "qtype": T_A, "faults": []});
+        if let Some((unprimed, priming, primed)) = run_sig_cache_sibling(h) {
+            for _ in 0..3 {
+                stats.eval();
+            }
+            for (v, when) in [(&unprimed, "fresh context"), (&priming, "priming message x.evil.tld. A"), (&primed, "after priming")] {
+                if let Verdict::Panic(p) = v {
+                    ctx.violation(&format!("C14|validator|panic|{}", panic_sig(p)), &format!("validator panicked ({p}) in the signature-cache case ({when})"), replay.clone());
+                }
+            }
+            if unprimed.secure() || priming.secure() {
+                ctx.violation(
+                    "C14|validator|rrset-signed-by-sibling-zone-reported-secure",
+                    &format!("www.tld. A 6.6.6.6 / x.evil.tld. A 6.6.6.6 carrying evil.tld.'s RRSIG over *.tld. A reported {unprimed:?} / {priming:?} in a fresh context"),
+                    replay.clone(),
+                );
+            } else if primed.secure() {
+                ctx.violation(
+                    "C14|validator|context-reuse|signature-cache-ignores-owner|rrset-signed-by-sibling-zone-reported-secure-after-priming",
+                    &format!(
+                        "www.tld. A 6.6.6.6 with the RRSIG that the sibling zone evil.tld. made over *.tld. A (labels 1) is reported {unprimed:?} by a fresh context, but {primed:?} by a context that has validated the same RRset and RRSIG under the owner x.evil.tld. before (that validation: {priming:?})"
+                    ),
+                    replay,
+                );
+            }
+            out.insert("signature_cache_across_owners".into(), json!({"fresh": unprimed.short(), "priming": priming.short(), "after_priming": primed.short()}));
+        }
+    }
+    if only.is_none() || only == Some("two-delegations-below-one-empty-non-terminal") {
+        let replay = json!({"scenario": h.name, "special": "two-delegations-below-one-empty-non-terminal", "qname": "www.a.b.tld.", "qtype": T_A, "faults": []});
+        let (first, second) = run_shared_ent(h);
+        stats.eval();
+        stats.eval();
+        for v in [&first, &second] {
+            if let Verdict::Panic(p) = v {
+                ctx.violation(&format!("C14|validator|panic|{}", panic_sig(p)), &format!("validator panicked ({p}) in the shared empty non-terminal case"), replay.clone());
+            }
+        }
+        if !first.secure() && !matches!(first, Verdict::Panic(_)) {
+            ctx.violation(
+                &format!("C14|validator|unmodified-correctly-signed-reported-{}|delegation-below-empty-non-terminal", first.short()),
+                &format!("authentic answer for www.x.b.tld. A (secure delegation x.b.tld. below the empty non-terminal b.tld.) reported {first:?} by a fresh context"),
+                replay.clone(),
+            );
+        } else if !second.secure() && !matches!(second, Verdict::Panic(_)) {
+            ctx.violation(
+                &format!("C14|validator|context-reuse|second-delegation-below-cached-empty-non-terminal-reported-{}", second.short()),
+                &format!("one context validated the authentic www.x.b.tld. A as {first:?} and then reports the authentic www.a.b.tld. A (other secure delegation below the same empty non-terminal b.tld.) as {second:?}"),
+                replay,
+            );
+        }
+        out.insert("two_delegations_below_one_empty_non_terminal".into(), json!({"first": first.short(), "second": second.short()}));
+    }
+    Value::Object(out)
+}
+
 fn main() {
     let ctx = Ctx::new("C14", "fault_enumeration");
     let now = std::time::SystemTime::now().duration_since(std::time::UNIX_EPOCH).unwrap().as_secs() as u32;
     let quick = ctx.quick();
-    let specs: Vec<(&'static str, Kind, bool, bool)> = vec![
-        ("S1-nsec-secure", Kind::Secure, false, false),
-        ("S2-nsec3-secure", Kind::Secure, true, false),
-        ("S3-nsec-insecure-child", Kind::InsecureChild, false, false),
-        ("S3b-nsec3-insecure-child", Kind::InsecureChild, true, false),
-        ("S5-nsec3-optout-insecure-child", Kind::InsecureChild, true, true),
+    let sp = |name, kind, nsec3, opt_out, decoy, extra| Spec { name, kind, nsec3, opt_out, decoy, extra };
+    let specs: Vec<Spec> = vec![
+        sp("S1-nsec-secure", Kind::Secure, false, false, false, false),
+        sp("S2-nsec3-secure", Kind::Secure, true, false, false, false),
+        sp("S3-nsec-insecure-child", Kind::InsecureChild, false, false, false, false),
+        sp("S3b-nsec3-insecure-child", Kind::InsecureChild, true, false, false, false),
+        sp("S6-nsec-secure-colliding-key-tag", Kind::Secure, false, false, true, false),
+        sp("S5-nsec3-optout-insecure-child", Kind::InsecureChild, true, true, false, false),
+        // only for the context-reuse cases, never fault-enumerated
+        sp("SX-nsec-secure-sibling-and-shared-ent-zones", Kind::Secure, false, false, false, true),
     ];
-    let hiers: Vec<Arc<Hier>> = specs.par_iter().map(|(n, k, n3, oo)| Arc::new(build_hier(n, *k, *n3, *oo, now))).collect();
+    let hiers: Vec<Arc<Hier>> = specs.par_iter().map(|s| Arc::new(build_hier(*s, now))).collect();
+    let sx = hiers.len() - 1;
     let run = Run { ctx: ctx.clone(), stats: Stats::new(), hiers, verbose: ctx.replay.is_some() };
 
     if let Some(path) = &ctx.replay {
@@ -2745,6 +2959,11 @@ fn main() {
                 }
             }
             ctx.finish(json!({"evaluations": 2, "distinct_nontrivial": 0, "rule": "replay", "samples": [c], "exhaustive": false}), &["replay of one case"]);
+        }
+        if let Some(sp) = c["special"].as_str() {
+            let r = reuse_specials(&ctx, &run.stats, &run.hiers[hi], Some(sp));
+            println!("{sp}: {r}");
+            ctx.finish(json!({"evaluations": run.stats.evals(), "distinct_nontrivial": 0, "rule": "replay", "samples": [c], "exhaustive": false}), &["replay of one case"]);
         }
         let faults: Vec<Fault> = serde_json::from_value(c["faults"].clone()).expect("faults");
         let case = Case { hi, q: Query { name: unshow(c["qname"].as_str().unwrap()), qtype: c["qtype"].as_u64().unwrap() as u16 }, faults: Arc::new(faults), conn: true };
@@ -2770,27 +2989,39 @@ fn main() {
     ];
     // ring of non-existent names around every name of zone.tld (incl. before the first and after the last)
     let ring = vec!["0.zone.tld.", "a.a.b.zone.tld.", "c.b.zone.tld.", "bb.zone.tld.", "d.zone.tld.", "f.zone.tld.", "m.zone.tld.", "nt.zone.tld.", "v.zone.tld.", "x.explicit.w.zone.tld.", "ww.zone.tld.", "wwww.zone.tld.", "zzzz.zone.tld.", "0.tld.", "m.tld.", "zzzzz.tld."];
-    let nh = if quick { 4 } else { run.hiers.len() };
-    // (hierarchy, query, swap-only, pair mode)
-    let mut plan: Vec<(usize, Query, bool, u8)> = vec![];
+    // cn.zone.tld. owns a CNAME: query types below and above CNAME (5)
+    let cname_queries = vec![q("cn.zone.tld.", T_NS), q("cn.zone.tld.", 28), q("cn.zone.tld.", T_MX), q("cn.zone.tld.", T_TXT)];
+    // direct queries for wildcard owner names
+    let star_queries = vec![q("*.wc.zone.tld.", T_A), q("*.wc.zone.tld.", T_CNAME), q("*.w.zone.tld.", T_A), q("*.w.zone.tld.", T_MX)];
+    // hierarchies 0..4 = S1, S2, S3, S3b (full plans), 4 = S6 colliding key tag, 5 = S5 (thorough only); sx is never enumerated
+    let nh = if quick { 5 } else { sx };
+    // (hierarchy, query, mode: 0 all faults / 1 NSEC(3) swaps only / 2 baseline only / 3 baseline + CNAME-to-NODATA, pair mode)
+    let mut plan: Vec<(usize, Query, u8, u8)> = vec![];
     for hi in 0..nh {
+        let decoy = run.hiers[hi].decoy;
         for qq in &quick_queries {
-            plan.push((hi, qq.clone(), false, if quick { 1 } else { 2 }));
+            plan.push((hi, qq.clone(), 0, if decoy { u8::from(!quick) } else if quick { 1 } else { 2 }));
         }
         for qq in &more_queries {
-            plan.push((hi, qq.clone(), false, if quick { 0 } else { 2 }));
+            plan.push((hi, qq.clone(), if decoy && quick { 2 } else { 0 }, if quick || decoy { 0 } else { 2 }));
         }
-        if run.hiers[hi].kind == Kind::Secure {
+        for qq in &cname_queries {
+            plan.push((hi, qq.clone(), 3, 0));
+        }
+        for qq in &star_queries {
+            plan.push((hi, qq.clone(), if quick { 2 } else { 0 }, 0));
+        }
+        if run.hiers[hi].kind == Kind::Secure && !decoy {
             for (n, r) in ring.iter().enumerate() {
                 if quick && n % 2 != 0 {
                     continue;
                 }
-                plan.push((hi, q(r, T_A), true, 0));
+                plan.push((hi, q(r, T_A), 1, 0));
             }
         }
     }
     let counts = Mutex::new(BTreeMap::new());
-    let planned: Vec<(Vec<Case>, Vec<Fault>)> = plan.par_iter().map(|(hi, qq, swap_only, pairs)| cases_for(&run.hiers, *hi, qq, *swap_only, *pairs, &counts)).collect();
+    let planned: Vec<(Vec<Case>, Vec<Fault>)> = plan.par_iter().map(|(hi, qq, mode, pairs)| cases_for(&run.hiers, *hi, qq, *mode, *pairs, &counts)).collect();
     run.stats.merge_counts(&counts.lock().unwrap());
     if std::env::var("C14_DRY").is_ok() {
         println!("{}", run.stats.counters_json());
@@ -2803,6 +3034,7 @@ fn main() {
     // in parallel with the enumeration: context reuse across the expiry of a signature (S1)
     let h0 = run.hiers[0].clone();
     let expiry = std::thread::spawn(move || run_across_expiry(&h0));
+    let reuse_json = reuse_specials(&ctx, &run.stats, &run.hiers[sx], None);
     let cases: Vec<&Case> = planned.iter().flat_map(|p| p.0.iter()).collect();
     cases.par_iter().for_each(|c| run.run_case(c, Some(&wd)));
     // pairs, generated row by row
@@ -2872,7 +3104,7 @@ fn main() {
             "rule": "one evaluation = one run of the real validator (validate_msg, or Connection for single faults) on a fresh ValidationContext with the oracle applied; non-trivial = a faulted case in which at least one message delivered to the validator (the validated answer or an upstream DS/DNSKEY response) differs in its octets from the authentic one; distinct by hash of (scenario, query, fault list)",
             "exhaustive": true,
             "bound": if quick { "quick: scenarios S1,S2,S3,S3b x 17 queries: every single fault of the menu at every position (validate_msg and Connection); every second name of the NXDOMAIN ring x every NSEC/NSEC3 swap; all pairs of representative faults (one per kind and position) for 6 queries" } else { "thorough: 5 scenarios x 17 queries: every single fault at every position (validate_msg and Connection); full NXDOMAIN ring x every NSEC/NSEC3 swap; ALL pairs of single faults for all 17 queries of all 5 scenarios" },
-            "scenarios": run.hiers.iter().take(nh).map(|h| h.name).collect::<Vec<_>>(),
+            "scenarios": run.hiers.iter().take(nh).chain(run.hiers.iter().skip(sx)).map(|h| h.name).collect::<Vec<_>>(),
             "query_plans": plan.len(),
             "cases": cases.len() as u64 + n_pairs.load(AO::Relaxed),
             "single_and_baseline_cases": cases.len(),
@@ -2882,6 +3114,7 @@ fn main() {
             "counters": other,
             "upstream_query_budget": BUDGET,
             "context_reuse_across_rrsig_expiry": expiry_json,
+            "context_reuse_other": reuse_json,
             "samples": run.stats.samples(),
         }),
         &[
